@@ -1,6 +1,7 @@
 import GrolProofs.ParseNoPanic
 import GrolProofs.PrintNoPanic
 import GrolProofs.StreamWF
+import GrolProofs.ParseGood
 /-
 C08 — the front end is total on arbitrary bytes (parser and printer halves; the lexer half and
 the composition `bytes → TokStream` belong to the lexer component).
@@ -12,9 +13,13 @@ Proved here, for the Lean model of parser/parser.go and of the PrettyPrint metho
   * `C08.printer_never_panics`  a program without missing children whose operator tokens have a
                                  precedence prints without panic in all four modes;
   * `C08.partial`               the two combined: statement of C08 at a stream, under `C08.Safe`.
-Not proved (validated by the correspondence run only): (a) termination within a linear fuel bound
-(the driver's `defaultFuel` was never exhausted); (b) `errors = 0 ∧ ¬continuation → noNil tree ∧
-precOK tree` for the parser's own output — this is `C08.Safe`, evaluated by the driver on every case.
+  * `C08.parse_good`            for EVERY token stream and fuel: no error and no continuation ⇒ the tree
+                                 has no missing child and every operator token has a precedence;
+  * `C08.front_end_total`       the three combined, `C08.StatementAt` for every well-formed stream and fuel
+                                 (no `Safe` hypothesis left).
+Not proved (validated by the correspondence run only): termination within a linear fuel bound, i.e. the
+`∃ fuel, parseProgram s fuel ≠ outOfFuel` clause of `C08.Statement` (the driver's `defaultFuel` was
+never exhausted on any case).
 -/
 namespace Grol.C08
 open Grol Grol.Parser Grol.Printer Grol.Generated
@@ -53,6 +58,36 @@ theorem «partial» (tbl : Nat → Bool) (s : TokStream) (hwf : StreamWF s) (fue
   simp only [he, hc, beq_self_eq_true, Bool.not_false, Bool.and_self, Bool.not_true, Bool.false_or,
     Bool.and_eq_true] at hs
   exact ⟨hs.1, fun c a e => printer_never_panics tbl r.program c a hs.1 hs.2 e⟩
+
+/-- **C08 part 2** (no `Safe` needed): for EVERY token stream and fuel, a parse that reports no error and
+requests no continuation returns a tree without missing children in which every operator token has a
+precedence (`GrolProofs/ParseGood.lean`: every nil-returning parse path records an error or sets
+continuation; the `… =>` look-ahead, which returns nil silently, always ends in an error or in a tree
+that does not contain the nil). -/
+theorem parse_good (s : TokStream) (fuel : Nat) (r : ParseResult) (h : parseProgram s fuel = .ok r)
+    (he : r.errors = 0) (hc : r.cont = false) : noNilL r.program = true ∧ precOKL r.program = true :=
+  parseProgram_good s fuel r h he hc
+
+/-- `Safe` holds of every stream and fuel -/
+theorem safe_always (s : TokStream) (fuel : Nat) : Safe s fuel = true := by
+  unfold Safe
+  cases h : parseProgram s fuel with
+  | goPanic p => rfl
+  | outOfFuel => rfl
+  | ok r =>
+    by_cases hc : r.errors = 0 ∧ r.cont = false
+    · have := parse_good s fuel r h hc.1 hc.2
+      simp [hc.1, hc.2, this.1, this.2]
+    · by_cases he : r.errors = 0
+      · have : r.cont = true := by cases hcc : r.cont <;> simp_all
+        simp [he, this]
+      · simp [he]
+
+/-- **C08, parser + printer, without the termination clause**: on a stream satisfying the two lexer
+facts, for every fuel, the parser does not panic, and an error-free continuation-free result has no
+missing child and prints without panic in all four modes. -/
+theorem front_end_total (tbl : Nat → Bool) (s : TokStream) (hwf : StreamWF s) (fuel : Nat) : StatementAt tbl s fuel :=
+  «partial» tbl s hwf fuel (safe_always s fuel)
 
 /-! ### non-vacuity: a concrete stream (`a - (b - c)`) is well-formed, safe, and parses to a tree -/
 
